@@ -424,6 +424,84 @@ def gen_combine_tree(rng, depth):
     return t
 
 
+def real_netlist_structure(L, net, s):
+    """components of `net.netlist()` on equipotential nodes: [(signature, class(n1), class(n2))], signature =
+    (type, value at s, initial condition); wires only merge node names; the port is (1, 0)"""
+    with contextlib.redirect_stdout(io.StringIO()):
+        cct = L.lcapy.Circuit(net.netlist() + '\n')
+    nm = cct.node_map
+    out = []
+    for name, e in cct.elements.items():
+        ty = e.type
+        if ty == 'W':
+            continue
+        a, b = [nm[x] for x in e.node_names[:2]]
+        args = [x for x in e.args if x is not None]
+
+        def val(x):
+            return L.at(L.lcapy.expr(x), s)
+        if ty in ('V', 'I'):
+            sig = (ty,)
+        elif ty in ('L', 'C'):
+            sig = (ty, val(args[0]), val(args[1]) if len(args) > 1 else None)
+        elif ty == 'Z':
+            sig = ('Y', 1 / val(args[0]), None)
+        elif ty == 'CPE':
+            sig = ('Y', s ** int(val(args[1])) * val(args[0]), None)
+        else:
+            sig = (ty, val(args[0]), None)
+        out.append((sig, a, b))
+    return out, nm['1'], nm['0']
+
+
+def model_netlist_structure(reply):
+    parts = [x.strip() for x in reply.split(';')]
+    out = []
+    for ln in parts[1:]:
+        if not ln:
+            continue
+        f = ln.split()
+        ty = f[0]
+        fr = lambda x: None if x in ('-',) else (None if x == 'undef' else Fraction(x))
+        if ty in ('V', 'I'):
+            sig = (ty,)
+        elif ty in ('L', 'C'):
+            sig = (ty, fr(f[3]), fr(f[4]))
+        else:
+            sig = (ty, fr(f[3]), None)
+        out.append((sig, int(f[1]), int(f[2])))
+    return parts[0] == 'true', out
+
+
+def same_structure(real, t1, t0, model):
+    """is there a bijection of the real node classes onto the model's node indices (port fixed: 1, 0) under which
+    the two multisets of components coincide?"""
+    if sorted((x[0] for x in real), key=repr) != sorted((x[0] for x in model), key=repr):
+        return False
+    real = sorted(real, key=lambda x: repr(x[0]))
+
+    def go(i, mp, used):
+        if i == len(real):
+            return True
+        sig, a, b = real[i]
+        for j, (msig, ma, mb) in enumerate(model):
+            if j in used or msig != sig:
+                continue
+            new = dict(mp)
+            ok = True
+            for r_, m_ in ((a, ma), (b, mb)):
+                if r_ in new:
+                    ok = ok and new[r_] == m_
+                elif m_ in new.values():
+                    ok = False
+                else:
+                    new[r_] = m_
+            if ok and go(i + 1, new, used | {j}):
+                return True
+        return False
+    return go(0, {t1: 1, t0: 0}, frozenset())
+
+
 def rnd_point(rng):
     return Fraction(rng.randint(1, 40), rng.randint(1, 7))
 
@@ -529,6 +607,24 @@ def run_oneport(chk, drv, L, state):
         chk.count('precondition', 'tOK=%s nOK=%s icOK=%s' % (tOK, nOK, icOK))
         chk.sample({'tree': toks, 's': fstr(s), 'line': line, 'model': [None if v is None else fstr(v) for v in mod]})
 
+        # ---- correspondence: the generated netlist (wire-joined names merged) against Model/OnePortNetlist `Net.make`
+        try:
+            with time_limit(limit), contextlib.redirect_stdout(io.StringIO()):
+                rstruct, t1, t0 = real_netlist_structure(L, net, s)
+            drawable, mstruct = model_netlist_structure(drv.ask1('op.netlist %s %s' % (fstr(s), toks)))
+            chk.coverage['correspondence']['compared'] += 1
+            same = t1 != t0 and same_structure(rstruct, t1, t0, mstruct)
+            chk.count('netlist-structure', ('same' if same else 'differs') + ('' if drawable else ':not-drawable'))
+            if not same and any(v is None for x in rstruct + mstruct for v in x[0][1:2]):
+                chk.count('degenerate', 'netlist-structure:undefined-value')
+            elif not same:
+                chk.coverage['correspondence']['disagreements'] += 1
+                disagreements.append({'what': 'oneport.netlist', 'tree': toks, 's': fstr(s), 'lcapy': repr(rstruct)[:600],
+                                      'model': repr(mstruct)[:600]})
+        except LcTimeout:
+            chk.count('lcapy-timeout', 'netlist()')
+        except Exception as e:   # noqa
+            chk.count('lcapy-error', 'netlist-structure:%s' % type(e).__name__)
         _tick('before ' + toks)
         # outside the precondition (an ideal source shunted / in series) only Z and Y are looked at:
         # Voc / Isc go through nodal analysis of an ill-posed circuit, which SymPy may chew on for minutes
@@ -656,6 +752,7 @@ def run_oneport(chk, drv, L, state):
 
         # ---- simplify: correspondence with the model, and oracle c (quantities unchanged)
         msimp = drv.ask1('op.simp %s %s' % (fstr(s), toks))
+        chk.count('simplify-guard', drv.ask1('op.guard %s %s' % (fstr(s), toks)))
         try:
             with time_limit(limit), contextlib.redirect_stdout(io.StringIO()):
                 simp = net.simplify()
@@ -834,8 +931,22 @@ def run_twoport(chk, drv, L, state):
             out.append([Fraction(x) for x in r.split()])
         return out
 
+    # orientation of the one-port in a series arm, read off the netlist that `Series` generates:
+    # `in` = + node at the input side (V2 = V1 - Z I1 - Voc), `out` = + node at the output side (V2 = V1 - Z I1 + Voc)
+    try:
+        with contextlib.redirect_stdout(io.StringIO()):
+            vline = [ln for ln in L.lcapy.twoport.Series(L.lcapy.Vdc(1)).netlist().split('\n') if ln.startswith('V')][0].split()
+        ser_out = vline[1] == '3'
+    except Exception:   # noqa
+        ser_out = False
+    chk.count('series-arm-orientation', 'plus-at-output' if ser_out else 'plus-at-input')
+
     def phys_ports(kind, ls):
         """candidate ports of the physical L / T / Pi network (validated by the Lean spec afterwards)"""
+        if ser_out:
+            # reversing a one-port: (v, i) -> (-v, -i), i.e. a v + b i = c becomes a v + b i = -c
+            idx = {'L': [0], 'T': [0, 2], 'Pi': [1]}[kind]
+            ls = [(a, b, -c) if j in idx else (a, b, c) for j, (a, b, c) in enumerate(ls)]
         out = []
         for _ in range(3):
             x, y = rnd_any(rng), rnd_any(rng)
@@ -1096,7 +1207,7 @@ def run_twoport(chk, drv, L, state):
             src = spec.has_sources()
             for (w, port) in phys_ports(kind, ls):
                 pt = ' '.join(fstr(v) for v in port)
-                r = drv.ask1('tp2.phys %s %s %d %s %s %s' % (fstr(s), kind, len(spec.ops), optoks, fstr(w), pt))
+                r = drv.ask1('tp2.phys %s %s %d %s %s %s' % (fstr(s), kind + (':out' if ser_out else ''), len(spec.ops), optoks, fstr(w), pt))
                 if r != 'true':
                     raise common.Infra('physical port generator produced a port outside the %s network: %s' % (kind, r))
                 chk.count('spec-judged', 'twoport.' + kind + ('.sources' if src else ''))
@@ -1249,10 +1360,13 @@ def run(chk, replay=None):
                     f.write(text)
         tinfo[fname] = {'definitions': len(info['defs']), 'unparsed': info['unparsed']}
     chk.coverage['translator'] = {'status': 'ok', 'files': tinfo}
-    broken = chk.lean(['Lcapy/Props/C07.lean', 'Lcapy/Props/C07TwoPort.lean'],
+    broken = chk.lean(['Lcapy/Props/C07.lean', 'Lcapy/Props/C07TwoPort.lean', 'Lcapy/Props/C07Simplify.lean',
+                       'Lcapy/Props/C07Netlist.lean'],
                       helper_files=['Lcapy/Proofs/OnePort.lean', 'Lcapy/Proofs/OnePortLine.lean', 'Lcapy/Proofs/OnePortSimplify.lean',
+                                    'Lcapy/Proofs/OnePortScan.lean', 'Lcapy/Proofs/OnePortNetlist.lean',
                                     'Lcapy/Spec/OnePort.lean', 'Lcapy/Spec/OnePortExec.lean', 'Lcapy/Spec/Sections.lean',
-                                    'Lcapy/Model/OnePort.lean', 'Lcapy/Model/CRat.lean', 'Lcapy/Driver/C07.lean'],
+                                    'Lcapy/Model/OnePort.lean', 'Lcapy/Model/OnePortGuard.lean', 'Lcapy/Model/OnePortNetlist.lean',
+                                    'Lcapy/Model/CRat.lean', 'Lcapy/Driver/C07.lean'],
                       leanchecker=(chk.tier == 'thorough'))
     drv = chk.get_driver()
     L = Lc()
